@@ -231,8 +231,16 @@ class Realised:
             return typing.MutableMapping[self.ty(t[1]), self.ty(t[2])]
         if k == "opt":
             inner = self.ty(t[1])
-            if (self.uid + len(repr(t))) % 3 == 0:
+            style = (self.uid + len(repr(t))) % 3
+            if style == 0:
                 return typing.Union[None, inner]  # None-first spelling of the same Optional
+            if style == 2 and not (self._building is not None and _mentions(t, self._building)):
+                # (not around `typing.Self`: cattrs does not substitute `Self` inside a types.UnionType -- recorded
+                # finding F52, reproduced by a dedicated probe in props/c01.py -- every recursive class would hit it)
+                try:
+                    return inner | None  # PEP 604 spelling: a types.UnionType object (no __name__, no __origin__)
+                except TypeError:
+                    pass  # e.g. a string forward reference
             return Optional[inner]
         if k == "new":
             return NewType(f"NT{self.uid}_{len(self._ty_cache)}", self.ty(t[1]))
@@ -246,6 +254,21 @@ class Realised:
             if t[1] == self._building:
                 return typing.Self
             return self.classes[t[1]]
+        if k == "union":
+            ms = [self.classes[c] for c in t[1]]
+            style = (self.uid + len(repr(t))) % 4
+            if style == 3:
+                # PEP 604 spelling `A | B` / `A | B | None`: a types.UnionType object
+                u = ms[0]
+                for m in ms[1:]:
+                    u = u | m
+                return (u | None) if t[2] else u
+            if t[2]:
+                # Optional[Union[...]], None first, None in the middle: the same union
+                if style == 0:
+                    return Optional[typing.Union[tuple(ms)]]
+                ms.insert(0 if style == 1 else 1, type(None))
+            return typing.Union[tuple(ms)]
         raise ValueError(t)
 
     def _ty_src(self, t):
